@@ -24,6 +24,11 @@ SPECS = [
     "tcp_dial_scope=p2p/transport/tcp/tcp.go:TcpTransport.dialWithScope",
     "ws_dial=p2p/transport/websocket/websocket.go:WebsocketTransport.Dial",
     "ws_dial_scope=p2p/transport/websocket/websocket.go:WebsocketTransport.dialWithScope",
+    "quic_dial=p2p/transport/quic/transport.go:transport.Dial",
+    "quic_dial_scope=p2p/transport/quic/transport.go:transport.dialWithScope",
+    "quic_accept=p2p/transport/quic/listener.go:listener.Accept",
+    "quic_wrap=p2p/transport/quic/listener.go:listener.wrapConn",
+    "quic_wrap_scope=p2p/transport/quic/listener.go:listener.wrapConnWithScope",
     "conn_newstream=p2p/net/swarm/swarm_conn.go:Conn.NewStream",
     "conn_open_add=p2p/net/swarm/swarm_conn.go:Conn.openAndAddStream",
     "conn_addstream=p2p/net/swarm/swarm_conn.go:Conn.addStream",
